@@ -13,8 +13,9 @@
                      admits it; forced notifications only need the user's enable flag.
     * `recipients` — Recovery / Acknowledgement only to users who were sent a Problem for the current
                      incident (or who do not subscribe to Problem).  The incident ends when the notification
-                     object processes a Recovery (sends it, or discards it by its type filter); a Recovery
-                     that is only withheld because the notification period is closed does not end it.
+                     object processes a Recovery (sends it, or discards it by its type filter), or when the
+                     checkable requests a Recovery that is dropped because notifications are switched off; a
+                     Recovery that is only withheld because the notification period is closed does not end it.
     * `noDup`      — non-volatile: no non-reminder Problem to a user for the state of the Problem that user
                      was sent last, without a Recovery in between.
     * `reminder`   — reminders only from the timer, only in a hard problem state that is neither
@@ -37,6 +38,7 @@ structure Obs where
   env : Env
   events : List Event
   heldAfter : Bool   -- after the operation the notification object still holds back a Problem (suppressed_notifications)
+  req : Option NType -- the notification type the checkable requested (`send`); `none` for a timer run
   deriving Repr
 
 inductive Clause
@@ -197,9 +199,25 @@ def runTrace {G : Type} (step : G → Obs → Option Clause × G) : G → List O
     | (some cl, _) => some cl
     | (none, g') => runTrace step g' rest
 
+/-- The checkable announced the end of the incident — it requested a Recovery notification — while notifications
+    were switched off (globally or for the checkable) and the request was not forced: `SendNotifications` drops the
+    request, nobody is told, and the incident is over all the same.  Users who were sent a Problem before this point
+    were not "sent a Problem for the current incident" when the next incident's Acknowledgement / Recovery goes out
+    (F-C03b: the code keeps notified_problem_users across the dropped request). -/
+def recoveryDropped (o : Obs) : Bool :=
+  o.kind == .send && o.req == some .recovery && !o.env.force && !(o.env.globalEnabled && o.env.ckEnabled)
+
 def deliveryObs (c : Cfg) (g : Unit) (o : Obs) : Option Clause × Unit := evFold (deliveryEv c o.kind o.env) g o.events
-def recipientsObs (ps : List Nat) (o : Obs) : Option Clause × List Nat := evFold (recipientsEv o.env) ps o.events
-def noDupObs (ls : Nat → Option Nat) (o : Obs) : Option Clause × (Nat → Option Nat) := evFold (noDupEv o.env) ls o.events
+def recipientsObs (ps : List Nat) (o : Obs) : Option Clause × List Nat :=
+  evFold (recipientsEv o.env) (if recoveryDropped o then [] else ps) o.events
+/-- The weaker reading (the incident ends only with a Recovery the notification object processed).  Not part of the
+    specification: the driver runs it beside `recipientsObs` to tell the known finding F-C03b (this one accepts, the
+    specification rejects) from any other violation of the clause. -/
+def recipientsObsLoose (ps : List Nat) (o : Obs) : Option Clause × List Nat := evFold (recipientsEv o.env) ps o.events
+/-- A dropped Recovery request also is "a recovery in between" for the duplicate clause (the bookkeeping forgets,
+    i.e. the clause demands less — the code happens to remember, and withholds the next incident's Problem). -/
+def noDupObs (ls : Nat → Option Nat) (o : Obs) : Option Clause × (Nat → Option Nat) :=
+  evFold (noDupEv o.env) (if recoveryDropped o then fun _ => none else ls) o.events
 def reminderObs (c : Cfg) (g : RemSt) (o : Obs) : Option Clause × RemSt :=
   evFold (reminderEv c o.kind o.env) (remValidate o.env g) o.events
 
@@ -246,8 +264,8 @@ inductive Op
   deriving Repr
 
 def applyOp (c : Cfg) (s : St) : Op → St × Obs
-  | .send ty e => let r := sendStep c s ty e; (r.1, ⟨.send, e, r.2, r.1.sup.problem⟩)
-  | .tick e => let r := tickStep c s e; (r.1, ⟨.tick, e, r.2, r.1.sup.problem⟩)
+  | .send ty e => let r := sendStep c s ty e; (r.1, ⟨.send, e, r.2, r.1.sup.problem, some ty⟩)
+  | .tick e => let r := tickStep c s e; (r.1, ⟨.tick, e, r.2, r.1.sup.problem, none⟩)
 
 def traceOf (c : Cfg) : St → List Op → List Obs
   | _, [] => []
